@@ -69,7 +69,7 @@ func writeManifest() {
 	}
 	m := map[string]any{
 		"version":   1,
-		"setup_cmd": "cd /verif && GOFLAGS=-mod=mod GOPROXY=off go build -o bin/rlint ./cmd/rlint",
+		"setup_cmd": "cd /verif && sh ./setup.sh",
 		"hooks": map[string]any{
 			"guard":            "verif",
 			"enable":           "none needed: the checks are static and read /repo's working tree as it is (no instrumentation, no build tag)",
